@@ -1,6 +1,7 @@
 package store
 
 import (
+	"bytes"
 	"context"
 	"encoding/binary"
 	"errors"
@@ -85,6 +86,17 @@ func (s *DefaultStore) SaveBlockData(ctx context.Context, header *types.SignedHe
 		return fmt.Errorf("failed to create a new batch: %w", err)
 	}
 
+	// A height saved again under another header: drop the hash index entry of the header that is
+	// replaced, otherwise GetBlockByHash(old hash) would return the new block.
+	if old, err := s.GetHeader(ctx, height); err == nil {
+		if oldHash := old.Hash(); !bytes.Equal(oldHash, hash) {
+			if h, err := s.getHeightByHash(ctx, oldHash); err == nil && h == height {
+				if err := batch.Delete(ctx, ds.NewKey(getIndexKey(oldHash))); err != nil {
+					return fmt.Errorf("failed to delete stale index key in batch: %w", err)
+				}
+			}
+		}
+	}
 	if err := batch.Put(ctx, ds.NewKey(getHeaderKey(height)), headerBlob); err != nil {
 		return fmt.Errorf("failed to put header blob in batch: %w", err)
 	}
